@@ -116,8 +116,8 @@ func C20(run *hx.Run) {
 	var catalogs [][]op
 	var seq []map[string]string
 	for i := 0; i < nFiles; i++ {
-		// file 0 is larger than the 100-page cache of a handle (every full scan evicts); file 3 has the same table names and column lists as the others, but another primary key order in t_wr
-		d, err := hx.BuildDB(o, dir, fmt.Sprintf("c%d", i), hx.M{"page_size": []int{512, 4096, 1024, 1024}[i], "rows": []int{1500, 300, 200, 200}[i], "frag": i == 1, "wr_variant": i == 3}, run.Seed*5+int64(i))
+		// file 0 is larger than the 100-page cache of a handle (every full scan evicts); file 1 has rows and index entries whose payloads are 64 KiB and more (assembled from 16+ overflow pages); file 3 has the same table names and column lists as the others, but another primary key order in t_wr
+		d, err := hx.BuildDB(o, dir, fmt.Sprintf("c%d", i), hx.M{"page_size": []int{512, 4096, 1024, 1024}[i], "rows": []int{1500, 300, 200, 200}[i], "frag": i == 1, "wr_variant": i == 3, "big_extra": [][]int{{2577, 5632}, {70000, 66000, 90001, 131072, 20497, 45056}, {5137, 11264}, {5137, 11264}}[i]}, run.Seed*5+int64(i))
 		if err != nil {
 			run.Inconclusive("corpus: " + err.Error())
 			o.Close()
